@@ -12,6 +12,7 @@ GROUPS = {
     "xfer": ["C04"],
     "recvdest": ["C05"],
     "dil_l2": ["C12"],
+    "dil_mid": ["C10", "C13"],
 }
 
 
